@@ -89,13 +89,19 @@ fn run(ka: usize, kb: usize) {
 }
 fn run_v(ka: usize, kb: usize, variance: Variance) {
     let mut table: InferenceTable<VI> = InferenceTable::new();
+    // The unifier's (empty) goal list is created here, before anything is interned, and the
+    // `Unifier` is built as a struct literal — `Unifier::new` does exactly this field
+    // initialisation, only later: a `Vec::new()` that follows a write to the interner's static
+    // arenas makes CBMC report the first `push` as a write through an invalid pointer in some
+    // checkout directories (DESIGN.md B19).
+    let goals0: Vec<InEnvironment<Goal<VI>>> = Vec::new();
     let a = mk_side(&mut table, ka);
     let b = mk_side(&mut table, kb);
     let env = Environment::new(I);
     let db = NoUDb;
     obs::start();
     let (res, n, g0, g1) = {
-        let mut u = Unifier::new(I, &db, &mut table, &env);
+        let mut u = Unifier { table: &mut table, environment: &env, goals: goals0, interner: I, db: &db };
         let res = u.relate_lifetime_lifetime(variance, &a.given, &b.given);
         let n = u.goals.len();
         // The returned goals are identified with the goals interned during the call by their
@@ -173,6 +179,12 @@ fn run_v(ka: usize, kb: usize, variance: Variance) {
 fn ref_step(ma: Mutability, mb: Mutability, kla: usize, klb: usize) {
     let variance = sym_variance();
     let mut table: InferenceTable<VI> = InferenceTable::new();
+    // The unifier's (empty) goal list is created here, before anything is interned, and the
+    // `Unifier` is built as a struct literal — `Unifier::new` does exactly this field
+    // initialisation, only later: a `Vec::new()` that follows a write to the interner's static
+    // arenas makes CBMC report the first `push` as a write through an invalid pointer in some
+    // checkout directories (DESIGN.md B19).
+    let goals0: Vec<InEnvironment<Goal<VI>>> = Vec::new();
     let la = mk_side(&mut table, kla);
     let lb = mk_side(&mut table, klb);
     let (i, j) = (sym::u64(), sym::u64());
@@ -182,7 +194,7 @@ fn ref_step(ma: Mutability, mb: Mutability, kla: usize, klb: usize) {
     let db = NoUDb;
     obs::start();
     let (res, n) = {
-        let mut u = Unifier::new(I, &db, &mut table, &env);
+        let mut u = Unifier { table: &mut table, environment: &env, goals: goals0, interner: I, db: &db };
         let res = u.relate_ty_ty(variance, &ta, &tb);
         let n = u.goals.len();
         std::mem::forget(u.goals);
@@ -245,6 +257,12 @@ fn declared_step(fn_def: bool, same_id: bool, kla: usize, klb: usize) {
     let ambient = sym_variance();
     let declared = sym_variance();
     let mut table: InferenceTable<VI> = InferenceTable::new();
+    // The unifier's (empty) goal list is created here, before anything is interned, and the
+    // `Unifier` is built as a struct literal — `Unifier::new` does exactly this field
+    // initialisation, only later: a `Vec::new()` that follows a write to the interner's static
+    // arenas makes CBMC report the first `push` as a write through an invalid pointer in some
+    // checkout directories (DESIGN.md B19).
+    let goals0: Vec<InEnvironment<Goal<VI>>> = Vec::new();
     let la = mk_side(&mut table, kla);
     let lb = mk_side(&mut table, klb);
     let (i, j) = if same_id { (7, 7) } else { (1, 2) };
@@ -262,7 +280,7 @@ fn declared_step(fn_def: bool, same_id: bool, kla: usize, klb: usize) {
     let db = VarDb(declared);
     obs::start();
     let (res, n) = {
-        let mut u = Unifier::new(I, &db, &mut table, &env);
+        let mut u = Unifier { table: &mut table, environment: &env, goals: goals0, interner: I, db: &db };
         let res = u.relate_ty_ty(ambient, &ta, &tb);
         let n = u.goals.len();
         std::mem::forget(u.goals);
